@@ -77,7 +77,7 @@ def gen(unit, props, source_ser, impl, ty, type_source, table, field_types, alia
             comp = "old(serializer).toks()"
             for (nm, key, f, kind) in g:
                 comp = "%s(%s, *self)" % (nm, comp)
-            t += ['[[fn.chunk]]', 'take = %d' % len(g), 'ensures = ["r is Ok ==> final(serializer).toks() == %s"]' % comp,
+            t += ['[[fn.chunk]]', 'take = %d' % len(g), 'ensures = ["r is Ok", "final(serializer).toks() == %s"]' % comp,
                   'head = "%s"' % " ".join("reveal(%s);" % x[0] for x in g)]
     else:
         prev = "t0.push(Tok::Map(%s_count(b) as u64))" % unit
